@@ -143,15 +143,32 @@ class Harnessed:
             c.namespace = None
         self.is_ensemble = self.kind == "ensemble"
         self.n_walkers = cfg.get("n_walkers", 1)
+        self.limits = {}  # parameter -> [lower, upper] set on the chain after construction
         for w, i, width, frac in cfg.get("limits") or []:
             x0 = float(inputs["start"][i])
+            cur = self.limits.setdefault(i, [-np.inf, np.inf])
             if w in ("bounds", "both"):
                 lo = x0 - width * frac
                 if w == "both":
                     lo = max(lo, -0.25 * width) if x0 >= 0 else lo
                 lib_call("set_boundaries", self.chain.set_boundaries, i, (lo, lo + width))
+                cur[0], cur[1] = max(cur[0], lo), min(cur[1], lo + width)
             if w in ("nonneg", "both") and x0 >= 0:
                 lib_call("set_non_negative", self.chain.set_non_negative, i, True)
+                cur[0] = max(cur[0], 0.0)
+
+    def foreign_point(self, pos):
+        """A point handed to this chain by an exchange comes from a chain with the same limits: bring `pos`
+        inside the limits set on this chain (a point outside them is not a state the sampler can be in - its
+        reflected proposals would all be long jumps and the width adaptation collapses)."""
+        pos = np.array(pos, dtype=float)
+        for i, (lo, hi) in self.limits.items():
+            if np.isfinite(hi) and np.isfinite(lo):
+                if not lo <= pos[i] <= hi:
+                    pos[i] = lo + (pos[i] - lo) % (hi - lo)
+            elif np.isfinite(lo) and pos[i] < lo:
+                pos[i] = lo + (lo - pos[i])
+        return pos
 
     # ---- read-outs that work for every class (ensemble before first advance has none)
     def rows(self):
